@@ -41,7 +41,7 @@ CHUNK = {'quick': 1, 'thorough': 1}
 MANIFEST = {'engines': ['E1-enum'],
             'technique': 'exhaustive enumeration of seeds x prior global-generator states x virtual hash-salt assignments (in-process) x PYTHONHASHSEED processes; byte-wise comparison of canonical results'}
 
-COMPONENTS = ['laostar', 'lrtdp', 'astar', 'bfs', 'qlearning', 'sarsa', 'expectedsarsa', 'doubleq', 'rmax', 'bpi', 'ga',
+COMPONENTS = ['laostar', 'lrtdp', 'astar', 'astar_tie', 'bfs', 'qlearning', 'sarsa', 'expectedsarsa', 'doubleq', 'rmax', 'bpi', 'ga',
               'semimdp', 'implicit', 'mdp_rollout', 'pomdp_rollout']
 one, h = F(1), F(1, 2)
 # problem menu: small stochastic MDPs with uniform action sets, last state absorbing, every policy proper
@@ -142,7 +142,7 @@ def run_component(name, pi, seed, labelers):
     from msdm.core.mdp import FunctionalPolicy
     with warnings.catch_warnings():
         warnings.simplefilter('ignore')
-        if name in ('astar', 'bfs'):
+        if name in ('astar', 'astar_tie', 'bfs'):
             mdp, spec = build_mdp(GRAPH, sl, al)
         elif name in ('bpi', 'ga', 'pomdp_rollout'):
             mdp, spec = build_pomdp(MDPS[pi], sl, al)
@@ -160,6 +160,10 @@ def run_component(name, pi, seed, labelers):
         if name == 'astar':
             from msdm.algorithms.search import AStarSearch
             res = AStarSearch(seed=seed, tie_breaking_strategy='random', randomize_action_order=True).plan_on(mdp)
+            return canon([res.path, res.path_value, res.visited])
+        if name == 'astar_tie':
+            from msdm.algorithms.search import AStarSearch
+            res = AStarSearch(seed=seed, tie_breaking_strategy='random', randomize_action_order=False).plan_on(mdp)
             return canon([res.path, res.path_value, res.visited])
         if name == 'bfs':
             from msdm.algorithms.search import BreadthFirstSearch
@@ -251,7 +255,7 @@ def seeds_for(tier, seed):
 
 def items(tier, seed):
     for c in COMPONENTS:
-        for pi in range(len(MDPS) if c not in ('astar', 'bfs') else 1):
+        for pi in range(len(MDPS) if c not in ('astar', 'astar_tie', 'bfs') else 1):
             yield ('iso', c, pi, tuple(seeds_for(tier, seed)))
             yield ('salt', c, pi, tuple(seeds_for(tier, seed)[:2]))
     hs = [0, 1, 2, 3] if tier == 'quick' else list(range(16))
@@ -359,7 +363,7 @@ def worker_main(argv):
     out = {}
     lab = make_labelers('str')
     for c in comps:
-        for pi in range(len(MDPS) if c not in ('astar', 'bfs') else 1):
+        for pi in range(len(MDPS) if c not in ('astar', 'astar_tie', 'bfs') else 1):
             for sd in seeds:
                 try:
                     out['%s|%d|%d' % (c, pi, sd)] = json.dumps(run_component(c, pi, sd, lab))
